@@ -16,14 +16,14 @@ instance : Div GQ where
     let nn := w.re * w.re + w.im * w.im
     ⟨(z.re * w.re + z.im * w.im) / nn, (z.im * w.re - z.re * w.im) / nn⟩
 
-def cfgQ (tol : ℚ) (strict : Bool) : Cfg ℚ :=
+def cfgQ (tol : ℚ) : Cfg ℚ :=
   { cj := id, re := id, im := fun _ => 0, lt := fun a b => decide (a < b), tol2 := tol * tol,
-    eps2 := 1 / (10 : ℚ) ^ 20, strictCast := strict }
+    eps2 := 1 / (10 : ℚ) ^ 20 }
 
-def cfgQI (tol : ℚ) (strict : Bool) : Cfg GQ :=
+def cfgQI (tol : ℚ) : Cfg GQ :=
   { cj := fun z => ⟨z.re, -z.im⟩, re := fun z => ⟨z.re, 0⟩, im := fun z => ⟨z.im, 0⟩,
     lt := fun a b => decide (a.re < b.re), tol2 := ⟨tol * tol, 0⟩,
-    eps2 := ⟨1 / (10 : ℚ) ^ 20, 0⟩, strictCast := strict }
+    eps2 := ⟨1 / (10 : ℚ) ^ 20, 0⟩ }
 
 section generic
 variable {α : Type} [CommRing α] [Div α] [DecidableEq α]
@@ -139,7 +139,7 @@ def runOps {n : Nat} (c : Cfg α) (out : α → Json) (ratio : α → α → Jso
         | none => throw "Singular"
         | some _ => pure (objJ [("sym", obJ s'.sym), ("herm", obJ s'.herm), ("diag", boolsJ s'.diag)])
       | .failed e, _ => pure (objJ [("err", errJ e)])
-      | .solved k o, .solve _ _ _ _ tr =>
+      | .solved k o, .solve _ _ rhsC _ tr =>
         -- contract of the inner solver, checked at run time: M · inner(rem_j) = rem_j on solved columns
         match s.A with
         | none => throw "internal: solved without matrix"
@@ -150,16 +150,22 @@ def runOps {n : Nat} (c : Cfg α) (out : α → Json) (ratio : α → α → Jso
               let okH := decide (adjM c A *ᵥ innerExact c A true (o.rem j) none = o.rem j)
               !(okN && okH))
           if bad then throw "InnerContract"
-          -- conditioning of the appended pairs: ‖b after orthogonalisation‖² / ‖remaining rhs‖² (exclusion flag only)
+          -- per newly solved column: ‖b after orthogonalisation‖² / ‖b before‖² (the quantity the skip test compares with
+          -- tol²; reported for the boundary rule of the harness). Re-runs the model's own `orthPair`/`appendOne`.
           let adj := adjointMode s tr
-          let oldLen := if adj then s.dbAdj.length else s.db.length
-          let newPairs := (if adj then s'.dbAdj else s'.db).drop oldLen
+          let M := if adj then adjM c A else A
+          let rc := s.Acplx || rhsC
           let didCols := (List.finRange k).filter fun j => o.did j
-          let keep := if o.dropped = 0 then
-              (List.zip newPairs didCols).map fun (p, j) => ratio (nsq c p.b) (nsq c (o.rem j))
-            else []
-          pure (objJ [("x", blkJ out o.sol), ("keep", Json.arr keep.toArray), ("did", boolsJ o.did), ("called", Json.bool o.called),
-            ("hazard", Json.bool o.hazard), ("dropped", natJ o.dropped),
+          let (_, aratio) := didCols.foldl (init := ((if adj then s.dbAdj else s.db), ([] : List Json)))
+            fun (acc : List (Pair n α) × List Json) j =>
+              let xnew := innerExact c A adj (o.rem j) none
+              let st0 : Vec n α × Vec n α := (memo (maskOff s.diag xnew), memo (maskOff s.diag (M *ᵥ xnew)))
+              let n0 := ipSel c s.diag st0.2 st0.2
+              let o' := orthPair c s.diag acc.1 st0
+              let n1 := ipSel c s.diag o'.2 o'.2
+              ((appendOne c M s.diag rc acc.1 xnew).1, acc.2 ++ [if n0 = 0 then Json.null else ratio n1 n0])
+          pure (objJ [("x", blkJ out o.sol), ("aratio", Json.arr aratio.toArray), ("did", boolsJ o.did), ("called", Json.bool o.called),
+            ("dropped", natJ o.dropped),
             ("dbN", natJ s'.db.length), ("dbA", natJ s'.dbAdj.length),
             ("x0loc", match o.x0loc with | some X => blkJ out X | none => Json.null),
             ("ratio", listJ id ((List.finRange k).map fun j => ratio (nsq c (o.rem j)) 1))])
@@ -182,14 +188,13 @@ def numQI (v : Json) : R GQ :=
   | _ => do return ⟨← asRat v, 0⟩
 def outQI (z : GQ) : Json := Json.arr #[ratJ z.re, ratJ z.im]
 
-/-- `{"m":"c06.run","field":"Q"|"QI","n":…,"tol":"1/10000000","strict":false,"usym":null,"uherm":null,"ops":[…]}`;
+/-- `{"m":"c06.run","field":"Q"|"QI","n":…,"tol":"1/10000000","usym":null,"uherm":null,"ops":[…]}`;
     `ratio` of a solve = `‖remaining rhs‖²` per column (the harness divides by `‖rhs‖²` for the boundary test) -/
 def runH (j : Json) : R Json := do
   let tol ← getRat j "tol"
-  let strict ← getBool j "strict"
   match ← getStr j "field" with
-  | "Q" => runHistory (cfgQ tol strict) asRat ratJ (fun a b => ratJ (a / b)) j
-  | "QI" => runHistory (cfgQI tol strict) numQI outQI (fun a b => ratJ (a.re / b.re)) j
+  | "Q" => runHistory (cfgQ tol) asRat ratJ (fun a b => ratJ (a / b)) j
+  | "QI" => runHistory (cfgQI tol) numQI outQI (fun a b => ratJ (a.re / b.re)) j
   | f => throw s!"unknown field {f}"
 
 /-- `get_diagonal_indices` alone (and the variant before the repair) -/
